@@ -148,7 +148,7 @@ func (p RelPath) SplitParent() []RelPath {
 	"..".
 */
 func (p RelPath) GoesUp() bool {
-	return len(p.path) >= 2 && p.path[0:2] == ".."
+	return p.path == ".." || strings.HasPrefix(p.path, "../")
 }
 
 /*
